@@ -1,2 +1,92 @@
-// Package c12: check for property C12 (see /verif/DESIGN.md §3 C12).
+// Package c12: field-restructuring verbs do exactly their rearrangement and
+// invert cleanly (see /verif/DESIGN.md §3 C12).
+//
+// Layer A (mc.go): explicit-state search over the real mlrval.Mlrmap.
+// Layer B (verbs*.go): per-verb exhaustive enumeration through the in-process
+// mlr, with the bystander law, reference models written from the usage texts,
+// the algebraic laws of the property and verb == documented DSL equivalent.
 package c12
+
+import (
+	"os"
+	"sort"
+	"strings"
+
+	"verif/harness/vf"
+)
+
+func init() {
+	vf.Register(&vf.CheckDef{ID: "C12", Level: "model_checking", Run: run,
+		Workers: map[string]vf.WorkerFunc{"mc": mcWorker, "verbs": verbsWorker}})
+}
+
+func run(c *vf.Ctx) {
+	c.Rule = "Layer A: breadth-first search over sequences of Mlrmap accessor calls (menu of ~230 parameterised ops over keys {a,b,c,new}, values {1,2} (value 1 only from the pre-filled starts: ~160 ops), positions -3..4) on the real mlrval.Mlrmap in 4 construction modes run in lock-step (lazily hashed, hashed, unhashed, arena-allocated lazily hashed); a state is the dump of key/value list + index contents + FieldCount + lazy flag of all modes, deduplicated; from the empty map to the fixpoint (closed menu) and to a fixed depth with the key-growing ops, and from pre-filled 11/12/13-field records (lazy-index threshold 12) to a fixed depth. 'states' = distinct canonical states per shard subtree summed (the closure configuration is exact), 'transitions' = op applications checked. " +
+		"Layer B: for every verb of the property, the cross product {option combinations} x {field lists} x {records} (records = every ordered selection of <= 4 distinct keys out of {a,b,c,a.b,a*,b c} with tracer values; streams for the stateful verbs) run through the in-process mlr (JSON in, JSON Lines out); a case is one (arguments, input record or stream) pair; all cases are distinct by construction; non-trivial = the verb changed the record/stream."
+	c.Assume("Mlrmap.PutReferenceAfter is only exercised with a key that is not yet in the map (the accessor performs no existence check; key uniqueness is the caller's job)")
+	c.Assume("Label is only exercised with pairwise distinct names (the label verb rejects duplicates before calling it)")
+	c.Assume("negative positional indices follow the doc comment of findEntryByPositionalIndex (-n..-1 alias 1..n); the user documentation only describes 1..NF")
+	c.Assume("Mlrmap.Rename(k,k) on a present key is expected to leave the record unchanged (the doc comments do not single the case out; the rename verb documents 'Renames specified fields')")
+
+	only := os.Getenv("VERIF_C12_ONLY") // debugging aid: "mc" or "verbs"; unset in normal runs
+	if only != "" {
+		c.Exhaustive = false
+		c.Extra["debug_only"] = only
+	}
+	mcShards := 256
+	if only == "verbs" {
+		mcShards = 1
+	}
+	mc := c.RunPool(vf.PoolSpec{Worker: "mc", Shards: mcShards, StallSecs: 1800, Env: []string{"GOGC=800", "GOMAXPROCS=2"}})
+	c.TracesValidated = c.Counters["mc:traces_replayed_on_real_map"]
+	depths := map[string]string{}
+	for k, m := range mc.Sets {
+		if strings.HasPrefix(k, "mc:depth:") {
+			max := ""
+			for d := range m {
+				if len(d) > len(max) || (len(d) == len(max) && d > max) {
+					max = d
+				}
+			}
+			depths[strings.TrimPrefix(k, "mc:depth:")] = max
+		}
+	}
+	c.Extra["mlrmap_depth_completed"] = depths
+	c.Extra["mlrmap_modes_in_lockstep"] = modeNames[:]
+	c.Extra["mlrmap_three_mode_agreement"] = map[string]any{
+		"transitions_checked":             c.Transitions,
+		"transitions_all_modes_agree":     c.Counters["mc:transitions_all_modes_agree"],
+		"transitions_with_a_violation":    c.Transitions - c.Counters["mc:transitions_all_modes_agree"],
+		"reads_that_built_the_lazy_index": c.Counters["mc:reads_that_built_the_lazy_index"],
+		"note":                            "every transition is executed on a lazily-hashed, a hashed, an unhashed and an arena-built record; list contents and return values must be identical in all of them and equal to the reference ordered list (shared with C04's hashed/unhashed clause)",
+		"hash_threshold_export_agrees12":  c.Counters["mc:hash_threshold_is_not_12"] == 0,
+	}
+	if c.Counters["mc:empty-closure:fixpoint_reached"] == 0 {
+		c.Exhaustive = false
+	}
+
+	if only == "mc" {
+		return
+	}
+	vr := c.RunPool(vf.PoolSpec{Worker: "verbs", Shards: 512, Env: []string{"GOGC=400", "GOMAXPROCS=2"}})
+	sets := map[string][]string{}
+	for k := range vr.Sets {
+		sets[k] = vf.SortedSet(vr, k)
+	}
+	if v, ok := sets["verbs"]; ok {
+		c.Extra["verbs_exercised"] = v
+	}
+	if v, ok := sets["unconstrained"]; ok {
+		c.Extra["unconstrained_cells_not_asserted"] = v
+	}
+	// per-verb / per-flag hit counts are in counters ("verb:<name>", "flag:<verb>:<flag>", "law:<name>")
+	var laws []string
+	for k := range c.Counters {
+		if strings.HasPrefix(k, "law:") {
+			laws = append(laws, k)
+		}
+	}
+	sort.Strings(laws)
+	c.Extra["laws_evaluated"] = laws
+	verbAssumptions(c)
+}
